@@ -133,7 +133,11 @@ pub fn buffered(data: &[u8]) -> c14::Case {
         ops.push(match idx(&mut u, 8) {
             0 | 1 | 2 | 3 => c14::Op::Next,
             4 => c14::Op::IsExhausted,
-            5 => c14::Op::NextFramesNth(idx(&mut u, cap + 2)),
+            5 => match idx(&mut u, 4) {
+                0 => c14::Op::NextFramesCount,
+                1 => c14::Op::NextFramesLast,
+                _ => c14::Op::NextFramesNth(idx(&mut u, cap + 2)),
+            },
             _ => c14::Op::NextFrames(idx(&mut u, cap + 2)),
         });
     }
